@@ -896,7 +896,9 @@ def report(rec, problems, op, root, history, flags, observer):
     for p in problems:
         clause, detail = p[0], p[1]
         answer = p[2] if len(p) > 2 else None
-        key = f'C13|{clause}|op={op_label(op)};state={flags}'
+        # failures tied to the form of an argument do not depend on the state: one key
+        key = (f'C13|{clause}|op={op_label(op)}' if clause.endswith('-argument')
+               else f'C13|{clause}|op={op_label(op)};state={flags}')
         case = dict(root=root, history=history, op=op, observer=observer, answer=answer)
         rec.violation(key, f'{clause}: after history {history} on table {root["table"]}, {op}'
                            f'{"" if answer is None else " with random answer " + str(answer)}: {detail}',
